@@ -82,6 +82,7 @@ class SimListener:
             raise BlockingIOError(errno.EAGAIN, "nothing to accept")
         c = self.pending.pop(0)
         c.accepted = True
+        c.accept_poll = self.w.polls
         self.w.accepted.append(c)
         return c, ("10.0.0.%d" % (c.client + 1), 4000 + c.client)
 
@@ -258,6 +259,8 @@ class World:
         self.main_deadline = None
         self.polls = 0
         self.in_murder = False
+        self.limit_poll = None
+        self.booted_flag = True
         self.menu_mode = menu_mode
         self.nclients = nclients
         self.spin_run = 0
@@ -282,6 +285,17 @@ class World:
                     return G.ThreadWorker.handle(self_, conn)
                 finally:
                     conn.sock.in_job = None
+
+            # `alive` observed: the main-loop round in which the worker was told it is done
+            @property
+            def alive(self_):
+                return self_.__dict__.get("_alive_v", True)
+
+            @alive.setter
+            def alive(self_, v):
+                if not v and self_.__dict__.get("_alive_v", True) and world.limit_poll is None and world.booted_flag:
+                    world.limit_poll = world.polls
+                self_.__dict__["_alive_v"] = v
 
             def murder_keepalived(self_):
                 world.murder_passes.append(world.s.now)
